@@ -1021,6 +1021,11 @@ class Server:
                 "error": "Command 'suggest' is only valid after a 'check' command"
                 " (that produces no parse errors)"
             }
+        try:
+            inspect.signature(SuggestionEngine).bind(self.fine_grained_manager, **kwargs)
+        except TypeError as err:
+            # As in run_command(): unexpected arguments are the client's mistake.
+            return {"error": f"Invalid arguments for command 'suggest': {err}"}
         engine = SuggestionEngine(self.fine_grained_manager, **kwargs)
         try:
             if callsites:
